@@ -36,21 +36,21 @@ func (c cell) String() string {
 func (c cell) key() string { return fmt.Sprintf("%s/%s/%s", c.role, c.cause, c.phase) }
 
 var causes = []string{"peer-eof", "read-error", "write-error", "peer-stops-reading", "client-close", "acceptor-close", "handler-stop", "unroutable-inbound-frame"}
-var phases = []string{"before-logon", "mid-handshake", "established-idle", "inbound-burst", "inbound-stream", "inbound-requests", "resend-batch-in-flight", "outbound-burst", "during-logout", "after-logout-exchange"}
+var phases = []string{"before-logon", "mid-handshake", "established-idle", "inbound-burst", "inbound-stream", "inbound-requests", "resend-batch-in-flight", "outbound-burst", "during-logout", "after-logout-exchange", "established-after-sequence-gap-at-logon"}
 
 func peerCaused(cause string) bool {
 	return cause == "peer-eof" || cause == "read-error" || cause == "write-error" || cause == "peer-stops-reading"
 }
 
 type outcome struct {
-	ce          cell
-	label       string
-	f           *rig.Full
-	l           *rig.Link
-	tFault      time.Time
-	setupFailed string
-	sendBlocked bool
-	sendersStuck int32
+	ce             cell
+	label          string
+	f              *rig.Full
+	l              *rig.Link
+	tFault         time.Time
+	setupFailed    string
+	sendBlocked    bool
+	sendersStuck   int32
 	pendingAtFault int
 	blockedSenders int
 }
@@ -122,6 +122,13 @@ func runCell(c *vk.Ctx, ce cell, idx int) *outcome {
 		}
 		l.Conn.Feed(part)
 	case "established-idle":
+		if !logon() {
+			return o
+		}
+	case "established-after-sequence-gap-at-logon":
+		// the peer resumes with its counter ahead of what this side expects: the handshake completes and this side asks
+		// for the missing messages (which the peer never supplies)
+		l.Peer.Seq = 4
 		if !logon() {
 			return o
 		}
@@ -255,7 +262,7 @@ func runCell(c *vk.Ctx, ce cell, idx int) *outcome {
 	case "write-error":
 		l.Conn.FailNextWrite()
 		// something must be written for the error to surface: the session's own heartbeat (N=1) or a send
-		if l.S != nil && (ce.phase == "established-idle" || ce.phase == "inbound-burst") {
+		if l.S != nil && (ce.phase == "established-idle" || ce.phase == "established-after-sequence-gap-at-logon" || ce.phase == "inbound-burst") {
 			go func() { _ = l.S.Send(fixgen.CreateMarketDataRequestReject("trigger")) }()
 		}
 	case "peer-stops-reading":
@@ -387,7 +394,7 @@ func judge(c *vk.Ctx, o *outcome, p1, p2 []rig.GStack) {
 
 func main() {
 	c := vk.Init("C13")
-	c.Rule("fault matrix: role {acceptor, initiator} x cause {peer EOF, read error, write error, peer stops reading (writes stall to the write deadline), Initiator.Close, Acceptor.Close, handler.Stop, a complete inbound frame without MsgType (the handler loop ends with an error), optionally followed by EOF} x phase {before logon, mid-handshake (cut inside the Logon bytes), established idle, inbound burst of 40 messages behind a slow application handler, steady inbound stream at a moderate rate, burst of 40 TestRequests (the handler loop itself is sending replies), a batch of 40 stored messages being retransmitted to a slowly reading peer, outbound burst from 4 sender goroutines, during logout, after a completed Logout exchange (connected, not logged on)} x handler/conn buffer {0,1,10} x cut position {message boundary, mid-field, inside the CheckSum field} x 3 timing offsets; quick: every (role,cause,phase) once, thorough: the full matrix. Plus a matrix of connections served for a bare handler without a session (nothing but the library's own teardown ends them): role x {peer EOF, read error, write error, owner Close, handler Stop} x {idle, inbound backlog behind a slow handler} x buffer sizes, and Initiator.Close before Serve. Oracle after the settling bound 3 s + 1.1 (N+1) with N=1: net.Conn.Close called; Serve returned; OnDisconnect/OnStopped/EventDisconnect for peer-caused ends; a Session.Send issued 1 s after the end returns within 3 s; senders that were inside Send are released; goroutine profile (debug=1, pprof label per scenario) shows no library-started goroutine in two samples 1 s apart. distinct = matrix cell; non-trivial = hand-offs were pending / senders in flight at fault time (measured) or a non-traffic phase")
+	c.Rule("fault matrix: role {acceptor, initiator} x cause {peer EOF, read error, write error, peer stops reading (writes stall to the write deadline), Initiator.Close, Acceptor.Close, handler.Stop, a complete inbound frame without MsgType (the handler loop ends with an error), optionally followed by EOF} x phase {before logon, mid-handshake (cut inside the Logon bytes), established idle, inbound burst of 40 messages behind a slow application handler, steady inbound stream at a moderate rate, burst of 40 TestRequests (the handler loop itself is sending replies), a batch of 40 stored messages being retransmitted to a slowly reading peer, outbound burst from 4 sender goroutines, during logout, after a completed Logout exchange (connected, not logged on), established by a Logon whose sequence number is 4 ahead (a ResendRequest of this side is outstanding)} x handler/conn buffer {0,1,10} x cut position {message boundary, mid-field, inside the CheckSum field} x 3 timing offsets; quick: every (role,cause,phase) once, thorough: the full matrix. Plus a matrix of connections served for a bare handler without a session (nothing but the library's own teardown ends them): role x {peer EOF, read error, write error, owner Close, handler Stop} x {idle, inbound backlog behind a slow handler} x buffer sizes, and Initiator.Close before Serve. Oracle after the settling bound 3 s + 1.1 (N+1) with N=1: net.Conn.Close called; Serve returned; OnDisconnect/OnStopped/EventDisconnect for peer-caused ends; a Session.Send issued 1 s after the end returns within 3 s; senders that were inside Send are released; goroutine profile (debug=1, pprof label per scenario) shows no library-started goroutine in two samples 1 s apart. distinct = matrix cell; non-trivial = hand-offs were pending / senders in flight at fault time (measured) or a non-traffic phase")
 	c.Assume("settling bound 5.2 s with N=1: the library's timer goroutines notice cancellation only at their next expiry, which is bounded and therefore allowed; the listener's accept loop is exempt until Acceptor.Close")
 	var cells []cell
 	for _, role := range []rig.Role{rig.Acceptor, rig.Initiator} {
